@@ -28,6 +28,8 @@ structure W8 where
 deriving DecidableEq, Inhabited, Repr
 
 def W8.zero : W8 := ⟨0, 0, 0, 0, 0, 0, 0, 0⟩
+def W8.ofList (l : List UInt32) : W8 :=
+  ⟨l.getD 0 0, l.getD 1 0, l.getD 2 0, l.getD 3 0, l.getD 4 0, l.getD 5 0, l.getD 6 0, l.getD 7 0⟩
 def W8.toList (a : W8) : List UInt32 := [a.w0, a.w1, a.w2, a.w3, a.w4, a.w5, a.w6, a.w7]
 /-- the 256-bit number held in the eight words (word 0 least significant) -/
 def W8.toNat (a : W8) : Nat :=
@@ -226,7 +228,7 @@ structure Ctx where
 deriving Inhabited
 
 /-- `p_crypto_hash_gost3411_new` / `_reset`: everything zero (the standard's all-zero start vector) -/
-def init : Ctx := { buf := List.replicate gostBlock 0, hash := W8.zero, len := W8.zero, sum := W8.zero }
+def init : Ctx := { buf := List.replicate gostBlock 0, hash := W8.ofList gostIV, len := W8.zero, sum := W8.zero }
 def reset (_ : Ctx) : Ctx := init
 
 /-- what one block does to `(hash, sum)`: `process (ctx, buf); sum_256 (ctx->sum, buf);` -/
